@@ -31,6 +31,8 @@
 (*         created: resources whose Default::default() ran, in order;      *)
 (*         calls: resources whose CUSTOM setup handler ran, in order       *)
 (*  exec   w0, out, pres, created, calls, after, w1   World::exec          *)
+(*  storm  threads, ops, fail, msg   multi-threaded read-only storm: `fail` *)
+(*         of `ops` concurrent fetches of the (read-only) shape panicked   *)
 (* A fetch event also names its execution context (ctx: normal control     *)
 (* flow | the value is dropped by an unwinding, caught panic | the fetch   *)
 (* is issued from a destructor running because of a caught panic); the     *)
@@ -189,12 +191,23 @@ TrDied ==
   /\ wf' = FALSE
   /\ UNCHANGED <<nres, dflt, pdef, rep, ok, drift>> /\ UNCHANGED vars
 
-Known == {"reset", "decl", "fetch", "setup", "exec", "died"}
+\* multi-threaded read-only storm: `threads` threads fetched the (read-only) shape `ops` times
+\* concurrently from one world holding every resource; `fail` of these fetches panicked
+TrStorm ==
+  /\ Is("storm")
+  /\ LET e == Ev
+         shaped == ReadOnly(sh) /\ e.ops >= 0 /\ e.fail >= 0 /\ e.threads >= 2
+     IN IF ~wf \/ ~shaped THEN wf' = (wf /\ shaped) /\ UNCHANGED ok
+        ELSE /\ ok' = [ok EXCEPT !.borrows = @ /\ P_C06_shared(sh, 1..nres, e.fail)]
+             /\ wf' = wf
+  /\ UNCHANGED <<nres, dflt, pdef, rep, drift>> /\ UNCHANGED vars
+
+Known == {"reset", "decl", "fetch", "setup", "exec", "died", "storm"}
 TrSkip ==
   /\ l <= Len(Rec) /\ Ev.ev \notin Known /\ l' = l + 1
   /\ UNCHANGED <<nres, dflt, pdef, rep, ok, wf, drift>> /\ UNCHANGED vars
 
-TNext == TrReset \/ TrDecl \/ TrFetch \/ TrSetup \/ TrExec \/ TrDied \/ TrSkip
+TNext == TrReset \/ TrDecl \/ TrFetch \/ TrSetup \/ TrExec \/ TrDied \/ TrStorm \/ TrSkip
 Spec == Init /\ [][TNext]_<<tvars, vars>>
 
 \* ---- property invariants ------------------------------------------------------------
